@@ -12,7 +12,6 @@
 #include <fcppt/string_literal.hpp>
 #include <fcppt/either/bind.hpp>
 #include <fcppt/either/from_optional.hpp>
-#include <fcppt/either/map.hpp>
 #include <fcppt/parse/basic_stream_fwd.hpp>
 #include <fcppt/parse/digits.hpp>
 #include <fcppt/parse/error.hpp>
@@ -45,18 +44,20 @@ fcppt::parse::int_<Type>::parse(
   return fcppt::either::bind(
       parser.parse(_state, _skipper),
       [](fcppt::parse::result_of<decltype(parser)> const &_result) {
-        return fcppt::either::map(
-            fcppt::either::from_optional(
-                fcppt::extract_from_string<Type>(fcppt::tuple::get<1>(_result)),
-                [&_result] {
-                  return fcppt::parse::error<Ch>{
-                      std::basic_string<Ch>{
-                          FCPPT_STRING_LITERAL(Ch, "Failed to parse signed integer from ")} +
-                      fcppt::tuple::get<1>(_result)};
-                }),
-            [&_result](result_type const _value) {
-              return fcppt::tuple::get<0>(_result).has_value() ? -_value : _value;
-            });
+        // Convert the whole string, including the sign: The magnitude of the smallest value is not
+        // representable.
+        std::basic_string<Ch> const string{
+            (fcppt::tuple::get<0>(_result).has_value()
+                 ? std::basic_string<Ch>(1U, FCPPT_CHAR_LITERAL(Ch, '-'))
+                 : std::basic_string<Ch>{}) +
+            fcppt::tuple::get<1>(_result)};
+
+        return fcppt::either::from_optional(fcppt::extract_from_string<Type>(string), [&string] {
+          return fcppt::parse::error<Ch>{
+              std::basic_string<Ch>{
+                  FCPPT_STRING_LITERAL(Ch, "Failed to parse signed integer from ")} +
+              string};
+        });
       });
 }
 
